@@ -110,6 +110,16 @@ def main():
     lines.append('Definition acc_g_type_info_get_array_length (has_length : bool) (dimension : Z) : Z := if has_length then dimension else -1.')
     lines.append('(* gitypeinfo.c: g_type_info_get_array_fixed_size  --  if (blob->has_size) return blob->dimensions.size; ... return -1 *)')
     lines.append('Definition acc_g_type_info_get_array_fixed_size (has_size : bool) (dimension : Z) : Z := if has_size then dimension else -1.')
+    # gitypeinfo.c / gibaseinfo.c: the test that tells a basic type stored in place from the offset of a type blob; every accessor
+    # of a type must use this one test (fail-closed: the number of places and their text)
+    bsrc = ' '.join(re.sub(r'/\*.*?\*/', '', open(os.path.join(REPO, 'girepository', 'gibaseinfo.c')).read(), flags=re.S).split())
+    test = 'type->flags.reserved == 0 && type->flags.reserved2 == 0'
+    n_t, n_b = tsrc.count(test), bsrc.count(test)
+    if n_t < 8 or n_b < 2 or tsrc.count('flags.reserved') != 2 * n_t or bsrc.count('flags.reserved') != 2 * n_b \
+            or re.search(r'type->offset\s*&|offset\s*&\s*0x', tsrc + bsrc):
+        raise TranslationError('gitypeinfo.c/gibaseinfo.c: the inline-type test is not the recognised one in every place')
+    lines.append('(* gitypeinfo.c (%d places), gibaseinfo.c (%d places): %s *)' % (n_t, n_b, test))
+    lines.append('Definition acc_type_is_inline (reserved reserved2 : Z) : bool := (reserved =? 0) && (reserved2 =? 0).')
     # the builder's alignment macro
     nsrc = open(os.path.join(REPO, 'girepository', 'girnode.c')).read()
     m = re.search(r'^#define\s+ALIGN_VALUE\s*\(\s*(\w+)\s*,\s*(\w+)\s*\)\s*\\?\s*\n?\s*(.*)$', nsrc, flags=re.M)
